@@ -50,12 +50,15 @@ Proof.
 Qed.
 Print Assumptions C14_setters_once.
 
-(* Innermost attribution.  For every class table over the C14 grammar (leaves, list / set /
-   tuple / dict / Optional at any depth, nested dataclasses to any depth, Union / Literal /
-   TypedDict as opaque units), every known class, every dict-shaped document, every budget:
+(* Innermost attribution.  For every class table (leaves, list / set / tuple / dict / Optional /
+   NamedTuple fields at any depth, nested dataclasses to any depth — also below NamedTuples —,
+   Union / Literal / TypedDict as opaque units), every known class, every dict-shaped document,
+   every budget:
    if the load fails with library error e then the reference locator finds an offending
    position, e.class_name is the class the locator names, and for the ParseError family
-   e.field_name is the field it names; a MissingFields error names the class only.
+   e.field_name is the field it names; a MissingFields error names the class only (for a
+   NamedTuple of the wrong arity: the NamedTuple).  What lies BELOW a TypedDict / Union is not
+   inspected by the locator: the helper raises a fresh ParseError, see C14_refuted_F50.
    Hypotheses: leaf conversions raise ordinary exceptions (oracle); every value at a
    dataclass-typed position is None or a dict (`dc_shape_n` — outside it the statement is
    false: F24, refuted below). *)
@@ -101,6 +104,44 @@ Theorem C14_refuted_F24 :
     a = (S "B", Some (S "c")) /\ class_name le = Some (S "C") /\ e_fld le = Some (S "a").
 Proof. vm_compute. do 2 eexists. repeat split; reflexivity. Qed.
 Print Assumptions C14_refuted_F24.
+
+(* F50: a dataclass below a TypedDict: the helper wraps every exception into a fresh ParseError;
+   loaded on its own the inner document is attributed to (Leaf, qty), inside the TypedDict the error
+   names (Mid, tdd) *)
+Definition tTD := TTyped (S "TD") (TCons (S "leaf") (TData 1) TNil) TNil.
+Definition ctTD : ctable :=
+  [{| c_name := S "Mid"; c_fields := [fd "tdd" tTD] |};
+   {| c_name := S "Leaf"; c_fields := [fd "qty" (TLeaf LInt)] |}].
+Definition leaf_bad := d [("qty", VStr (S "zz"))].
+Definition doc_F50 := d [("tdd", d [("leaf", leaf_bad)])].
+Theorem C14_refuted_F50 :
+  exists le le',
+    load_cls toy ctTD 4 1 leaf_bad = Err (XLib le') /\
+    class_name le' = Some (S "Leaf") /\ e_fld le' = Some (S "qty") /\
+    dc_shape_n ctTD 4 0 doc_F50 = true /\
+    load_cls toy ctTD 4 0 doc_F50 = Err (XLib le) /\
+    class_name le = Some (S "Mid") /\ e_fld le = Some (S "tdd").
+Proof. vm_compute. do 2 eexists. repeat split; reflexivity. Qed.
+Print Assumptions C14_refuted_F50.
+
+(* a dataclass below a NamedTuple (inside a list) keeps the innermost attribution; a NamedTuple
+   of the wrong arity is a MissingFields naming the NamedTuple *)
+Definition tNT := TNamed (S "Slot") (TCons (S "a") (TLeaf LInt) (TCons (S "leaf") (TData 1) TNil)).
+Definition ctNT : ctable :=
+  [{| c_name := S "Mid"; c_fields := [fd "slots" (TSeq KList tNT)] |};
+   {| c_name := S "Leaf"; c_fields := [fd "qty" (TLeaf LInt)] |}].
+Definition doc_NT := d [("slots", VSeq KList [VSeq KList [VInt 1; d [("qty", VInt 2)]];
+                                              VSeq KList [VInt 3; leaf_bad]])].
+Definition doc_NT_short := d [("slots", VSeq KList [VSeq KList [VInt 1]])].
+Example C14_ex_below_namedtuple :
+  exists le le2,
+    dc_shape_n ctNT 4 0 doc_NT = true /\ load_cls toy ctNT 4 0 doc_NT = Err (XLib le) /\
+    locate_n toy ctNT 4 0 doc_NT = Some (S "Leaf", Some (S "qty")) /\
+    class_name le = Some (S "Leaf") /\ e_fld le = Some (S "qty") /\
+    load_cls toy ctNT 4 0 doc_NT_short = Err (XLib le2) /\
+    locate_n toy ctNT 4 0 doc_NT_short = Some (S "Slot", None) /\
+    class_name le2 = Some (S "Slot") /\ e_kind le2 = KMissingFields.
+Proof. vm_compute. do 2 eexists. repeat split; reflexivity. Qed.
 
 (* non-vacuity: a depth-3 failing document inside the region; junk at B.m['k'].ds[1].y[0] *)
 Definition dD (x : pv) (y : pv) := d [("x", x); ("y", y)].
